@@ -161,6 +161,39 @@ def cmd_run(ids, checks, tier):
     return 0
 
 
+def cmd_equiv(names, tier):
+    """Equivalent variants: changes that alter bytes / structure but violate no property; every listed check must stay silent."""
+    rc, out = sh(["git", "-C", REPO, "status", "--porcelain"])
+    if out.strip():
+        print("/repo is not clean; refusing")
+        return 2
+    base = os.path.join(SEEDED, "equiv")
+    for name in names or sorted(os.listdir(base)):
+        mp = os.path.join(base, name, "meta.json")
+        if not os.path.exists(mp):
+            continue
+        m = json.load(open(mp))
+        rc, out = sh(["git", "-C", REPO, "apply", os.path.join(base, name, "patch.diff")])
+        if rc:
+            print(name, "patch does not apply:", out)
+            continue
+        res = m.setdefault("results", {})
+        try:
+            rc, out = sh("go build ./... && go test -vet=off -count=1 ./...", cwd=REPO)
+            m["existing_tests_pass"] = rc == 0
+            for c in m["checks"]:
+                rc, out = sh([os.path.join(V, "bin", "check"), c, "--tier", tier], cwd=V, timeout=7200)
+                mism = re.findall(r"^MISMATCH (.{0,300})", out, re.M)
+                res[c] = {"exit": rc, "first_mismatch": mism[0] if mism else "", "error": out[-600:] if rc == 2 else ""}
+                print(name, c, "exit=%d %s" % (rc, mism[0][:200] if mism else ""))
+        finally:
+            sh(["git", "-C", REPO, "checkout", "--", "."])
+            sh(["git", "-C", REPO, "clean", "-fdq"])
+        m["silent"] = all(r["exit"] == 0 for r in res.values())
+        json.dump(m, open(mp, "w"), indent=1)
+    return 0
+
+
 def cmd_index():
     rows = []
     for mid in sorted(os.listdir(SEEDED)):
@@ -179,6 +212,19 @@ def cmd_index():
                 "(ALARM = exit 1 with a VIOLATION line).\n\n"
                 "| id | property | change | needs | confirmed | checks run |\n|---|---|---|---|---|---|\n")
         f.write("\n".join(rows) + "\n")
+        base = os.path.join(SEEDED, "equiv")
+        if os.path.isdir(base):
+            f.write("\n## Equivalent variants (no property violated: the checks must stay silent)\n\n"
+                    "Hand-written changes that alter the output bytes or the implementation strategy without violating any property "
+                    "(several of them fail the repository's golden-string tests, which pin bytes the properties leave free). "
+                    "`bin/mutants.py equiv` applies each, runs the listed checks and expects exit 0.\n\n"
+                    "| variant | change | repository tests | checks run |\n|---|---|---|---|\n")
+            for name in sorted(os.listdir(base)):
+                mp = os.path.join(base, name, "meta.json")
+                if os.path.exists(mp):
+                    m = json.load(open(mp))
+                    ran = ", ".join("%s:%s" % (c, {0: "silent", 1: "ALARM", 2: "error"}.get(r["exit"], r["exit"])) for c, r in sorted(m.get("results", {}).items()))
+                    f.write("| %s | %s | %s | %s |\n" % (name, m["summary"], {True: "pass", False: "fail (golden bytes)", None: "?"}[m.get("existing_tests_pass")], ran))
     print("wrote seeded/INDEX.md (%d mutants)" % len(rows))
 
 
@@ -202,6 +248,10 @@ def main():
             else:
                 ids.append(x)
         return cmd_run(ids, checks, tier)
+    if a[0] == "equiv":
+        tier = "quick"
+        names = [x for x in a[1:] if not x.startswith("--")]
+        return cmd_equiv(names, tier)
     if a[0] == "index":
         return cmd_index()
     print(__doc__)
